@@ -369,6 +369,11 @@ where
                     );
                     parse_stack.push_state(context, state);
                     builder.shift_action(context, next_token);
+                    // The layout before the shifted token is consumed. Without
+                    // whitespace skipping (i.e. with a Layout rule) nothing
+                    // else resets it and it would be attached to the next
+                    // token as well.
+                    context.set_layout_ahead(None);
 
                     log!(
                         "{} at {:?} [{:?}]:\n{}\n",
